@@ -1,4 +1,5 @@
 import EvyV.Props.EvalCore
+import EvyV.Props.Frame
 /-
 C09 — basic values are copied, composites are shared.
 
@@ -113,5 +114,10 @@ theorem deepCopy_fresh_array (fuel : Nat) (st st' : St F) (a b : Nat)
         subst h1
         -- the heap only grows during the copy of the elements
         exact (deepCopy_heap_mono fuel).2.1 elems st es st1 hd
+
+/-- **whole programs**: no execution frees or moves an object; an address held by any variable,
+element or field stays valid, so two holders of one composite keep seeing the same object -/
+theorem composites_never_move (n : Nat) (b : List (Stmt F)) (st : St F) (a : Nat) (h : a < st.heap.size) :
+    a < (execStmts ops ext prog n b st).st.heap.size := addresses_stay_valid ops ext prog n b st a h
 
 end EvyV.C09
